@@ -71,6 +71,8 @@ FIXTURE = os.path.join(D.VERIF, "fixtures", "iter_pos.hpp")
 META_EXTRA = 'IT3 (returned output cursor is advanced after its last write); IT4 (downward scans visit the first element); IT5 (`if constexpr` alternatives consult the same range ends); TIE-ELEM (min/max/minmax_element replace their holder in exactly the specified orderings); MERGE3 (one step of the merge-like algorithms per ordering of the heads); BISECT (one symbolic step of every bisection loop leaves [first+step+1, first+count) or [first, first+step)); IT4i (index-form downward scans reach index 0); OUTSTEP (an output cursor is stepped only after a write); RESUME (pattern searches move their candidate by one); RUN (typestate none/current/stale of a remembered run start against resets of the run counter, fixed point over the loop); STABLE (an insertion step shifts only past strictly greater elements, evaluated per ordering); IT1n (counted ranges are touched only where the count is positive); END2 (what equal / lexicographical_compare answer per end state of their lockstep scan); SHIFTRET (positions shift_left / shift_right return in the do-nothing cases, all (n, length) up to 4); PARAM.'
 META = (META[0] + " " + META_EXTRA, META[1])
 
+META = (META[0] + ' FUNCPASS (a functor overload hands its functor to every ordering / matching algorithm it calls); TIEMOVE (stable algorithms reorder elements only on paths where the functor is true, never where it is merely not true the other way round); RSTEP (downward scans test their lower bound before each step).', META[1])
+
 
 def run(chk, tier):
     db = D.load("checks")
@@ -79,6 +81,12 @@ def run(chk, tier):
     from ..rules import iters as _ITX
     _ITX.reverse_index_area(chk, db, ['_algorithm/', '_numeric/'])      # IT4i: downward index scans reach index 0
     _ITX.resume_area(chk, db, ['_algorithm/'])      # RESUME: pattern searches try every candidate position
+    if _ITX.functor_passed_area(chk, db, ['_algorithm/', '_numeric/']) < 8:      # FUNCPASS
+        chk.analysis_broken("FUNCPASS: fewer than 8 functor overloads that call another algorithm (floor 8)")
+    if _ITX.tie_move_area(chk, db, ['_algorithm/']) < 2:      # TIEMOVE
+        chk.analysis_broken("TIEMOVE: fewer than 2 stable algorithms with a functor-guarded reordering (floor 2)")
+    if _ITX.rstep_area(chk, db, ['_algorithm/', '_numeric/', '_memory/']) < 5:      # RSTEP
+        chk.analysis_broken("RSTEP: fewer than 5 downward scans (floor 5)")
     nsr = 0
     for nm in ("etl::shift_left", "etl::shift_right", "etl::rotate"):
         for f0 in db.by_q.get(nm, []):
